@@ -22,6 +22,15 @@ def register(CHECKS, H):
         q.append({"unit": "c15_tsan", "args": ["--scenario", sc, "--threads", "3", "--reps", "20"], "cores": 3})
         t.append({"unit": "c15_tsan", "args": ["--scenario", sc, "--threads", "3", "--reps", "300"], "cores": 3})
     t.append({"unit": "c15_threads", "args": ["--scenario", "mixed", "--threads", "3", "--bound", "1", "--budget", "1500"], "timeout": 2400})
+    # matrix part (checks/c15_matrix.cpp, written with the C05 verifier): run lists live in c15m.py
+    import importlib.util as _ilu, os as _os
+    _spec = _ilu.spec_from_file_location("c15m", _os.path.join(_os.path.dirname(_os.path.abspath(__file__)), "c15m.py"))
+    _m = _ilu.module_from_spec(_spec)
+    _spec.loader.exec_module(_m)
+    _mu, _mq, _mt = _m.runs()
+    units += _mu
+    q += _mq
+    t += _mt
     CHECKS["C15"] = {
         "units": units,
         "level": "model_checking",
@@ -34,7 +43,7 @@ def register(CHECKS, H):
                        "each is destroyed first in turn. Serialisation: announced size, round trip (binary and text), and deserialize on a "
                        "tight heap buffer of every length 0..size+16 must throw without touching memory outside the buffer (ASan)"),
         "level_note": "memory safety is decided by ASan/UBSan on the executed paths only; thread part: every interleaving of 2 threads (each owning a Simplex_tree / Persistent_cohomology / Matrix) at allocation and deallocation points with <= 1 preemption (thorough: <= 2; 3 threads <= 1), each schedule in a forked child under a watchdog and compared with the sequential result; races at non-allocating instructions are below that granularity and are only sampled by a free-running ThreadSanitizer build of the same bodies; trusted: reference complex",
-        "rule": "case = one source state (model x variant); ev.transitions = full observations and length probes executed; non-trivial = model with an edge",
+        "rule": "Simplex_tree part: case = one source state (model x variant); matrix part: case = (option set, kind, source history A, target history B); ev.transitions = full observations and length probes executed; non-trivial = model with an edge",
         "bounds": {"quick": "3 vertices x values {0,1}: 148 models x 3 variants, 8 option sets, every length 0..size+16",
                    "thorough": "3 vertices x values {0,1,2} for copies; 4 vertices x values {0,1} for serialisation"},
         "assumptions": ["deserialize is called on an empty tree (documented)"],
